@@ -466,7 +466,7 @@ def register_circular_to_mask(reg):
     K = 'photutils/geometry/circular_overlap.pyx::circular_overlap_grid'
     a = 'xmin, xmax, ymin, ymax, nx, ny, r, use_exact, subpixels'
     reg.add(Contract(
-        target=K, props=['C01'], pyx=True,
+        target=K, props=['C01'],
         params={'xmin': 'real', 'xmax': 'real', 'ymin': 'real', 'ymax': 'real', 'nx': 'pos',
                 'ny': 'pos', 'r': 'real', 'use_exact': 'int', 'subpixels': 'int'},
         ensures=[('shape', 'result.shape == (ny, nx)'),
@@ -522,7 +522,7 @@ def register_ell_rect_to_mask(reg):
         p1, p2 = ('rx', 'ry') if ufn == 'egrid_' else ('width', 'height')
         a = f'xmin, xmax, ymin, ymax, nx, ny, {p1}, {p2}, theta, use_exact, subpixels'
         reg.add(Contract(
-            target=f'{kfile}::{kname}', props=['C01'], pyx=True,
+            target=f'{kfile}::{kname}', props=['C01'],
             params={'xmin': 'real', 'xmax': 'real', 'ymin': 'real', 'ymax': 'real', 'nx': 'pos',
                     'ny': 'pos', p1: 'real', p2: 'real', 'theta': 'real', 'use_exact': 'int',
                     'subpixels': 'int'},
